@@ -113,8 +113,8 @@ def split_lengths(s, rooted):
     return out, missing
 
 
-def total_length(s):
-    return sum((n[2] or 0) for n in preorder(s) if n is not s)
+def total_length(s, include_root_edge=False):
+    return sum((n[2] or 0) for n in preorder(s) if (include_root_edge or n is not s))
 
 
 def has_all_lengths(s):
